@@ -515,8 +515,11 @@ var bindReplies = []string{
 func bindClientBody(c *nd.Ctx) nd.Result {
 	origin := jid.MustParse(bindOrigins[c.Choose(len(bindOrigins), "origin")])
 	reply := bindReplies[c.Choose(len(bindReplies), "reply")]
-	c.Note("initiator %q, server reply %s", origin.String(), reply)
-	desc := fmt.Sprintf("initiator %q, server reply %s", origin.String(), reply)
+	// servers may leave the to attribute out of their response header (the
+	// negotiator tolerates it): what the session knows about itself stays
+	noTo := c.Choose(2, "server-header-without-to") == 1
+	c.Note("initiator %q, server reply %s, server header without to: %v", origin.String(), reply, noTo)
+	desc := fmt.Sprintf("initiator %q, server reply %s, server header without to=%v", origin.String(), reply, noTo)
 	res := nd.Result{Outcome: reply, NonTrivial: desc}
 	location := origin.Domain()
 	var request string
@@ -527,6 +530,10 @@ func bindClientBody(c *nd.Ctx) nd.Result {
 			h := hdrVariant{name: "stream:stream", streamP: streamNS, xmlns: stanza.NSClient, version: "1.0", id: true, from: location.String(), to: origin.String()}
 			esc := func(s string) string { var b strings.Builder; xml.EscapeText(&b, []byte(s)); return b.String() }
 			h.to = esc(h.to)
+			if noTo {
+				h.to = ""
+				return h.render(false) + `<stream:features><bind xmlns='` + bindNS + `'/></stream:features>`, nil
+			}
 			return strings.Replace(h.render(false), "'"+h.to+"'", `"`+strings.Replace(h.to, "&#39;", "'", -1)+`"`, 1) + `<stream:features><bind xmlns='` + bindNS + `'/></stream:features>`, nil
 		case 1:
 			request = w
